@@ -443,6 +443,64 @@ def b64Decode : List Nat → Option Bytes
 
 def b64Codec : BlobCodec := ⟨b64Encode, b64Decode⟩
 
+/-! base32hex as NSEC3 uses it (`_next_text` / `from_text`) -/
+
+/-- lower-case base32hex digit -/
+def b32Char (v : Nat) : Nat := if v < 10 then 48 + v else 87 + v
+
+/-- `base64.b32encode(b).translate(normal→hex).lower().rstrip("=")` -/
+def b32hexEncode : Bytes → List Nat
+  | [] => []
+  | [a] => [b32Char (a / 8), b32Char (a % 8 * 4)]
+  | [a, b] => [b32Char (a / 8), b32Char (a % 8 * 4 + b / 64), b32Char (b / 2 % 32), b32Char (b % 2 * 16)]
+  | [a, b, c] => [b32Char (a / 8), b32Char (a % 8 * 4 + b / 64), b32Char (b / 2 % 32), b32Char (b % 2 * 16 + c / 16),
+      b32Char (c % 16 * 2)]
+  | [a, b, c, d] => [b32Char (a / 8), b32Char (a % 8 * 4 + b / 64), b32Char (b / 2 % 32), b32Char (b % 2 * 16 + c / 16),
+      b32Char (c % 16 * 2 + d / 128), b32Char (d / 4 % 32), b32Char (d % 4 * 8)]
+  | a :: b :: c :: d :: e :: rest =>
+    b32Char (a / 8) :: b32Char (a % 8 * 4 + b / 64) :: b32Char (b / 2 % 32) :: b32Char (b % 2 * 16 + c / 16) ::
+      b32Char (c % 16 * 2 + d / 128) :: b32Char (d / 4 % 32) :: b32Char (d % 4 * 8 + e / 32) :: b32Char (e % 32) ::
+      b32hexEncode rest
+
+/-- value of a character after `.upper().translate(hex→normal)` in the standard base32 alphabet: the base32hex digits,
+plus `W`–`Z`, which the translation leaves alone and the standard alphabet reads as 22–25 -/
+def b32Val (c0 : Nat) : Option Nat :=
+  let c := if 97 ≤ c0 ∧ c0 ≤ 122 then c0 - 32 else c0
+  if 48 ≤ c ∧ c ≤ 57 then some (c - 48)
+  else if 65 ≤ c ∧ c ≤ 86 then some (c - 55)
+  else if 87 ≤ c ∧ c ≤ 90 then some (c - 65)
+  else none
+
+def b32Acc : List Nat → Nat → Option Nat
+  | [], acc => some acc
+  | c :: cs, acc => match b32Val c with
+    | some v => b32Acc cs (acc * 32 + v)
+    | none => none
+
+def be5 (acc : Nat) : Bytes := [acc / 4294967296 % 256, acc / 16777216 % 256, acc / 65536 % 256, acc / 256 % 256, acc % 256]
+
+/-- the NSEC3 `next` field from text: no `=` at the end, re-padded, then `base64.b32decode` (which does not check that
+the unused low bits of a partial quantum are zero) -/
+def b32hexDecode (s : List Nat) : Option Bytes :=
+  if s.getLast? = some 61 then none
+  else
+    let rec go (fuel : Nat) (s : List Nat) : Option Bytes :=
+      match fuel with
+      | 0 => none
+      | fuel + 1 =>
+        if s = [] then some []
+        else if s.length ≥ 8 then
+          match b32Acc (s.take 8) 0, go fuel (s.drop 8) with
+          | some acc, some r => some (be5 acc ++ r)
+          | _, _ => none
+        else
+          let k := s.length
+          if k = 1 ∨ k = 3 ∨ k = 6 then none
+          else match b32Acc s 0 with
+            | some acc => some ((be5 (acc * 32 ^ (8 - k))).take ((43 - 5 * (8 - k)) / 8))
+            | none => none
+    go (s.length + 1) s
+
 /-! ## names as text fields -/
 
 /-- `Name.choose_relativity(origin, relativize)`; an empty-name origin is falsy in Python (`if origin:`) -/
